@@ -40,6 +40,11 @@ def pipeline(ctx):
         for a in ("Write", "Remove"):
             if cov.get(a, (0, 0))[1] == 0:
                 raise ToolError("vacuity: %s never taken" % a)
+    if not ctx.quick:
+        # the same invariants over every layout of up to 5 segments with at most one manifest container (2957 layouts)
+        for p in (1, 2, 3):
+            r = tlc_expect_ok(tlc("MC_Container", "MC_Container_all_p%d.cfg" % p, name="mc_container_all_%d" % p, workers=8, timeout=900, coverage=False), "MC Container all layouts place=%d" % p)
+            ctx.add_tlc(r)
     vecs = vectors(ctx)
     # one harness process per format (the formats are independent), run in parallel
     fmts = QUICK_FORMATS.split(",") if ctx.quick else ["jpeg", "png", "gif", "webp", "wav", "avi", "tiff", "svg", "mp3", "flac", "jxl", "mp4", "avif", "heic"]
